@@ -56,6 +56,16 @@ class Super:
         self.obj, self.cls = obj, cls
 
 
+class NamedTup(tuple):
+    """typing.NamedTuple instance of a private repo class: a real tuple (unpacking, indexing, equality with plain tuples)
+    whose fields can also be read by name and whose class's methods / properties can be called."""
+
+    def __new__(cls, klass, names, values):
+        t = super().__new__(cls, values)
+        t.klass, t.names = klass, list(names)
+        return t
+
+
 class Closure:
     def __init__(self, func, env=None, self_obj=None, interp=None):
         self.func = func  # loader.Func or ast.Lambda/FunctionDef
@@ -291,6 +301,9 @@ class Interp:
             return list(v)
         if isinstance(v, Count):
             return v.gen(self.max_loop)
+        if isinstance(v, Class) and any(isinstance(b, str) and b.split(".")[-1] in ("Enum", "IntEnum", "Flag") for k in self.repo.mro(v) for b in k.bases):
+            # iterating an Enum class yields its members in definition order
+            return [Sym("enum", v.name, n) for n in v.attrs if not n.startswith("_")]
         raise AnalysisError(f"cannot iterate {v!r} (line {getattr(node, 'lineno', '?')})")
 
     def on_raise(self, exc_value, node):
@@ -621,6 +634,18 @@ class Interp:
             if attr == "__init__":
                 return Closure(ast.parse("lambda *a, **k: None").body[0].value)
             raise AnalysisError(f"super().{attr} not resolvable for {base.obj!r}")
+        if isinstance(base, NamedTup):
+            if attr in base.names:
+                return base[base.names.index(attr)]
+            g = self.repo.resolve(base.klass, attr, "getter")
+            if g is not None:
+                return self.call_func(Closure(g, self_obj=base), [], {}, node)
+            mth = self.repo.resolve(base.klass, attr, "method")
+            if mth is not None:
+                return Closure(mth, self_obj=base)
+            if attr == "_replace":
+                return Sym("nt_replace", Ref(base)) if "Ref" in globals() else (_ for _ in ()).throw(AnalysisError("NamedTuple._replace not in vocabulary"))
+            raise AnalysisError(f"attribute .{attr} on a {base.klass.name} tuple not in vocabulary")
         if isinstance(base, Obj):
             if attr in base.fields:
                 return base.fields[attr]
@@ -874,8 +899,30 @@ class Interp:
         if self.repo.is_subclass(cls, "Exception") or cls.name.startswith("Finam") or cls.name.endswith("Error"):
             return Sym("exc", cls.name, *[a if _plain(a) or isinstance(a, Sym) else repr(a) for a in args])
         if self.constructs_privately(cls):
-            o = Obj(cls=cls, label=cls.name)
+            record = self.record_kind(cls)
             init = self.repo.resolve(cls, "__init__", "method")
+            if record and init is None:
+                # dataclass / NamedTuple: the annotated class-level names are the constructor parameters, in order
+                names = [n for k in reversed(list(self.repo.mro(cls))) for n, _d in k.ann_fields]
+                defaults = {n: d for k in reversed(list(self.repo.mro(cls))) for n, d in k.ann_fields if d is not None}
+                if len(args) > len(names) or any(k not in names for k in kwargs):
+                    raise AnalysisError(f"construction of {cls.name}: arguments do not match its fields {names}")
+                bound = dict(zip(names, args))
+                bound.update(kwargs)
+                for n in names:
+                    if n not in bound:
+                        if n not in defaults:
+                            self.on_raise(Sym("exc", "TypeError"), node)
+                        bound[n] = self.eval(defaults[n], {}, cls.module)
+                if record == "namedtuple":
+                    return NamedTup(cls, names, [bound[n] for n in names])
+                o = Obj(cls=cls, label=cls.name)
+                o.fields.update(bound)
+                post = self.repo.resolve(cls, "__post_init__", "method")
+                if post is not None:
+                    self.call_func(Closure(post, self_obj=o), [], {}, node)
+                return o
+            o = Obj(cls=cls, label=cls.name)
             if init is not None:
                 self.call_func(Closure(init, self_obj=o), list(args), dict(kwargs), node)
             elif args or kwargs:
@@ -883,12 +930,19 @@ class Interp:
             return o
         raise AnalysisError(f"construction of {cls.name} not in vocabulary")
 
+    def record_kind(self, cls):
+        if any(isinstance(b, str) and b.split(".")[-1] == "NamedTuple" for k in self.repo.mro(cls) for b in k.bases):
+            return "namedtuple"
+        if any(d.split("(")[0].split(".")[-1] == "dataclass" for d in getattr(cls, "decorators", [])):
+            return "dataclass"
+        return None
+
     def constructs_privately(self, cls):
         """Small private helper classes (leading underscore, no external base) are built by
         running their own constructor; everything else stays with the rule's vocabulary."""
         if not cls.name.startswith("_"):
             return False
-        return all(not isinstance(b, str) or b in ("object",) for k in self.repo.mro(cls) for b in k.bases)
+        return all(not isinstance(b, str) or b.split(".")[-1] in ("object", "NamedTuple") for k in self.repo.mro(cls) for b in k.bases)
 
     def builtin(self, name, args, kwargs, node):
         if name == "len":
@@ -1230,6 +1284,10 @@ _BIN = {
     ast.Div: lambda a, b: a / b,
     ast.FloorDiv: lambda a, b: a // b,
     ast.Mod: lambda a, b: a % b,
+    ast.BitOr: lambda a, b: a | b,
+    ast.BitAnd: lambda a, b: a & b,
+    ast.BitXor: lambda a, b: a ^ b,
+    ast.Pow: lambda a, b: a ** b,
 }
 _BINSYM = {ast.Add: "add", ast.Sub: "sub", ast.Mult: "mul", ast.Div: "div"}
 _SINGLETON_OPS = {"enum", "nomask"}
